@@ -377,6 +377,10 @@ class Doc(object):
 
 
 def fmt_seg(s, term='~', ele='*', sub=':', icvn='00401', rep=None):
+    raw = getattr(s, 'raw_pattern', None)
+    if raw is not None:
+        # a malformed segment given as a pattern over the delimiters: E = element separator, S = component separator
+        return raw.replace('E', ele).replace('S', sub) + term
     if s.id == 'ISA':
         els = [x[0] for x in s.vals]
         els[15] = sub
@@ -387,6 +391,50 @@ def fmt_seg(s, term='~', ele='*', sub=':', icvn='00401', rep=None):
     while els and els[-1] == '':
         els.pop()
     return s.id + ele + ele.join(els) + term
+
+
+def pad_to_boundary(doc, term='~', ele='*', sub=':', eol='\n', rep=None, delta=-1, bufsize=8192, header=106):
+    """Lengthen free-text (AN, no code list) values so that a segment terminator lands on offset
+    header + bufsize*k + delta (a read-buffer edge of the reader).  Returns the boundary hit or None."""
+    pieces = [fmt_seg(s, term, ele, sub, doc.icvn, rep) + eol for s in doc.segs]
+    total = sum(len(x) for x in pieces)
+    ends = []
+    pos = 0
+    for x in pieces:
+        pos += len(x)
+        ends.append(pos - len(eol) - 1)       # offset of the terminator character
+    k = 1
+    while header + bufsize * k + delta < total + 200:
+        target = header + bufsize * k + delta
+        # terminators before the target, nearest first
+        cands = [(target - o, i) for i, o in enumerate(ends) if 0 < target - o <= 400 and i > 3]
+        for need, i in sorted(cands):
+            # paddable values in body segments up to and including segment i
+            slots = []
+            for j in range(i, 2, -1):
+                sg = doc.segs[j]
+                if sg.id in ('ISA', 'GS', 'ST', 'SE', 'GE', 'IEA') or getattr(sg, 'raw_pattern', None) is not None:
+                    continue
+                for ei, c in enumerate(sg.node.children):
+                    if c.kind == 'ele' and c.dtype == 'AN' and not c.codes and not c.ext and not c.regex and ei > 0 \
+                            and ei < len(sg.vals) and sg.vals[ei][0] != '' and c.usage != 'N':
+                        room = c.maxl - len(sg.vals[ei][0])
+                        if room > 0:
+                            slots.append((j, ei, room))
+                if sum(x[2] for x in slots) >= need:
+                    break
+            if sum(x[2] for x in slots) < need:
+                continue
+            left = need
+            for j, ei, room in slots:
+                take = min(room, left)
+                doc.segs[j].vals[ei][0] += 'Z' * take
+                left -= take
+                if left == 0:
+                    break
+            return target
+        k += 1
+    return None
 
 
 class Gen(object):
